@@ -118,3 +118,10 @@ where
 	to_single_object(value, &mut buf, serializer_config)?;
 	Ok(buf)
 }
+
+/// Verification harness mount point (only compiled under `cargo kani`; source lives outside this repository)
+#[cfg(kani)]
+#[allow(unused, missing_docs)]
+pub(crate) mod verif {
+	include!(concat!(env!("SAF_VERIF"), "/single_object.rs"));
+}
